@@ -316,7 +316,12 @@ SHAPES = {
     'DsG': 'Dict[str, T], Generic[T]', 'GDs': 'Generic[T], Dict[str, T]', 'DG': 'Dict[T, S], Generic[T, S]', 'DGr': 'Dict[T, S], Generic[S, T]',
 }
 SHAPE_PRELUDE = 'class Mixin: pass\n'
-SHAPE_EXTRA = {'Sq': '    def __getitem__(self, i: int) -> object: return None\n    def __len__(self) -> int: return 0\n'}
+# (`Gga`, `GGga`, `Lga`: the class defines an ordinary `__getattr__` - in a pedantic class a CHECKED method: what the library reads from the
+#  instance before it has stored it there must not fall back to it, or the wrapper re-enters itself without end)
+_GETATTR = '    def __getattr__(self, name: str) -> object:\n        raise AttributeError(name)\n'
+SHAPES.update({'Gga': 'Generic[T]', 'GGga': 'Generic[T, S]', 'Lga': 'List[T]'})
+SHAPE_EXTRA = {'Sq': '    def __getitem__(self, i: int) -> object: return None\n    def __len__(self) -> int: return 0\n',
+               'Gga': _GETATTR, 'GGga': _GETATTR, 'Lga': _GETATTR}
 
 
 def _typing_ann(x):
